@@ -760,7 +760,14 @@ def replay(ctx, path):
             print("argv  :", obj["argv"])
             print("impl  :", {"exit": str(impl["exit"]), "exc": impl["exc"], "stdout": impl["stdout"][:400]})
             print("model :", model)
-            print("spec  :", obj.get("spec"))
+            spec = obj.get("spec")
+            if spec is None and kind == "recommend" and "plan" in model:
+                rp = importlib.import_module("paroxython.recommend_programs")
+                try:
+                    spec = {k: v[:400] for k, v in library_recommend(ws, model["plan"], rp).items()}
+                except BaseException as exc:  # noqa
+                    spec = {"exc": type(exc).__name__}
+            print("spec  :", spec, "(what the library call named by the plan produces)")
             return 0
         if kind == "listing":
             d = root / "ls"
